@@ -150,6 +150,16 @@ Definition addq_of_sx (x : sx) : addq :=
          | _ => None
          end).
 
+Definition item_of_sx (x : sx) : option item :=
+  match map sx_nat (sx_list x) with
+  | [0; a; _; _] => Some (IAnn a)
+  | [1; d; y; _] => Some (IData d y)
+  | [2; d; k; _] => Some (IKey d k)
+  | [3; r; _; _] => Some (IRes r)
+  | [4; d; _; _] => Some (ISet d)
+  | _ => None
+  end.
+
 Definition out_code (o : out) : sx :=
   match o with OOk _ => A 1 | OErr => A 0 | OPanic => A (-1) end.
 
@@ -212,6 +222,20 @@ Definition run_C08 (x : sx) : sx :=
           let m := L [out_code o; state_sx s1 true] in
           L [triple m spec k; triple m spec k]
       end
+  | 8 =>
+      (* a collection kept from the query, one item removed by the direct call, the collection used again
+         (Handles::items, as constraint of a query, as argument of filter_any) *)
+      let s := run (map op_of_sx (sx_list (sx_nth 1 x))) in
+      let q := query_of_sx 3 (sx_nth 2 x) in
+      let victim := item_of_sx (sx_nth 3 x) in
+      let k := known_class s q in
+      let out l := rows_sx false (map (fun it => [it]) l) in
+      let spec := out (coll_after s (sem s [] q) victim) in
+      let m := match eval_prog s q with
+               | Some rows => out (coll_after s rows victim)
+               | None => L [A (-1)]
+               end in
+      L [triple m spec k; triple m spec k; triple m spec k]
   | _ =>
       let s := run (map op_of_sx (sx_list (sx_nth 1 x))) in
       let v := sx_nat (sx_nth 2 x) in
